@@ -95,7 +95,7 @@ def extra_checks(tier, seed):
     bases = []
     for i in range(n):
         rng = random.Random('C04h-%d-%d' % (seed, i))
-        c = hsm.gen_case(rng, hist_len=rng.randint(1, 4), p_parallel=0.35)
+        c = hsm.gen_case(rng, hist_len=rng.randint(1, 4), p_parallel=0.35, p_enum=0.15)
         c['history'] = [(0, e, a) for (k, e, a) in c['history'] if e < 50]
         bases.append(c)
     obs = F.run_model(3, [hsm.enc_case(c) for c in bases])
@@ -138,7 +138,7 @@ def async_hier_stream(tier, seed):
     bases = []
     for i in range(n):
         rng = random.Random('C04ha-%d-%d' % (seed, i))
-        c = hsm.trim_lists(hsm.gen_case(rng, hist_len=rng.randint(2, 5), p_parallel=0.0))
+        c = hsm.trim_lists(hsm.gen_case(rng, hist_len=rng.randint(2, 5), p_parallel=0.0, p_enum=0.15))
         c['history'] = [(0, e, a) for (k, e, a) in c['history'] if e < 50]
         c['env'] = dict(default=c['env']['default'], bypos={p: r for p, r in c['env']['bypos'].items() if r[1] is None},
                         bycb={k: r for k, r in c['env']['bycb'].items() if r[1] is None})
